@@ -1140,7 +1140,7 @@ def run(ctx):
     _setup()
     r = ctx.rng
     q = ctx.quick
-    n_tree = 140 if q else 2500
+    n_tree = 140 if q else 1500
     specs = [g_tree(r, int(r.integers(1, 4)), int(r.integers(1, 5))) for _ in range(n_tree)]
     # the nesting the property names: reparameterisation inside masking inside weight-norm inside NonTrainable
     for _ in range(10 if q else 100):
@@ -1151,18 +1151,18 @@ def run(ctx):
            "random pytrees (tuples/lists/dicts/eqx.Modules, depth 1-3) of nested wrappers (depth 1-4): wrappers.unwrap vs "
            "Tree.unwrap_num -- structure/kinds/shapes exact, values bit-for-bit (1e-12 when exp/softplus/tanh/sqrt/division occur), call "
            "trace vs Tree.unwrap_trace_num; non-trivial = at least 2 wrappers, nested at least 2 deep")
-    vspecs = [g_vmapped(r, int(r.integers(1, 3)), int(r.integers(1, 4))) for _ in range(50 if q else 700)]
+    vspecs = [g_vmapped(r, int(r.integers(1, 3)), int(r.integers(1, 4))) for _ in range(50 if q else 420)]
     vspecs = [{"t": "tuple", "c": [v, g_leaf(r)]} if i % 3 == 0 else v for i, v in enumerate(vspecs)]
     _guard(ctx, "unwrap-vmapped", unit_unwrap, [v for v in vspecs if "vmap" in v], "unwrap-vmapped",
            "wrappers constructed under 1-2 levels of eqx.filter_vmap (batch sizes 1-3): unwrap vs the model's vectorised apply (slices "
            "along the axes recorded in _dummy, stacked); oracle: = stack of individually constructed", vmapped=True)
     _guard(ctx, "unwrap-vmapped-in-container", unit_unwrap, [v for v in vspecs if "vmap" not in v], "unwrap-vmapped-in-container", "the same, inside a tuple")
     _guard(ctx, "unwrap-malformed", unit_malformed, 12 if q else 120)
-    _guard(ctx, "partition", unit_partition, specs[: (30 if q else 600)] + [g_mixed(r, int(r.integers(0, 3)), int(r.integers(1, 4))) for _ in range(40 if q else 800)])
-    _guard(ctx, "loops", unit_loops, [g_mixed(r, int(r.integers(0, 2)), int(r.integers(1, 3))) for _ in range(16 if q else 220)])
-    _guard(ctx, "methods", unit_methods, 7 if q else 70)
-    _guard(ctx, "conditioner", unit_conditioner, 8 if q else 120)
-    _guard(ctx, "training-oracle", unit_training, 12 if q else 220)
+    _guard(ctx, "partition", unit_partition, specs[: (30 if q else 400)] + [g_mixed(r, int(r.integers(0, 3)), int(r.integers(1, 4))) for _ in range(40 if q else 500)])
+    _guard(ctx, "loops", unit_loops, [g_mixed(r, int(r.integers(0, 2)), int(r.integers(1, 3))) for _ in range(16 if q else 140)])
+    _guard(ctx, "methods", unit_methods, 7 if q else 42)
+    _guard(ctx, "conditioner", unit_conditioner, 8 if q else 80)
+    _guard(ctx, "training-oracle", unit_training, 12 if q else 130)
     _guard(ctx, "frozen-submodule", unit_frozen_submodule)
     note_lambda_returning_wrapper(ctx)
     ctx.assumptions += [
